@@ -30,42 +30,29 @@ FACT_FILES = ['C18Facts', 'TFacts', 'ExcFacts', 'RegFacts', 'c18']
 READY = True
 
 # ---------------------------------------------------------------------------------------------
-# GATED CLASS (genuine defect, see the report / DESIGN §5): the `_BBRepr` instance raises reprlib's
-# limits to 1024, not to "no limit" — a str / bytes literal whose repr is longer than 1024
-# characters, an int of more than 1024 digits, a container of more than 1024 elements and a nested
-# T / Path argument whose text is longer than 1024 characters are cut with '...' in the repr of a
-# T expression, and eval(repr(x)) is a SyntaxError or — silently — a different object
-# (T['a' * 1025] reads back with a 1021-character key).  Set to True once bbrepr's limits are
-# removed in /repo; until then literals above `minLimit` (Spec/C18.lean) are not generated.
-HUGE_LITERALS = os.environ.get('C18_HUGE_LITERALS') == '1'
-# GATED CLASS (genuine defect): `_format_path` keeps T runs and plain segments in one list and tells them
-# apart by `type(part) is list` — a plain segment that is a list is printed as a T run:
-# repr(Path('a', ['.', 'x'])) == "Path('a', T.x)" (another path, silently), repr(Path('a', [])) ==
-# "Path('a', T)", repr(Path('a', [1, 2])) raises TypeError (and inside a T argument prints as
-# <Path instance at 0x…>).  Set to True once fixed; until then no top-level list segment is generated.
-LIST_SEGMENTS = os.environ.get('C18_LIST_SEGMENTS') == '1'
-# GATED CLASS (consequence of reading 6, DESIGN §6.6 — `Path(T.a)` reprs as `T.a`, pinned by glom's own
-# test_path_t_roundtrip): where an argument is used *unevaluated* — the key of the last step of an
-# A-rooted expression, `scope[key] = target`, and a plain segment that is the first step of an S- /
-# A-rooted Path, `_s_first_magic(scope, key)` — a nested segment-free Path and the T expression it
-# prints as are told apart: glom(t, A[Path(T.a)]) raises TypeError (unhashable type: 'Path'),
-# glom(t, eval(repr(A[Path(T.a)]))) = glom(t, A[T.a]) succeeds; glom(t, Path(S, (Path(T.a),))) raises
-# TypeError, its reconstruction Path(S, (T.a,)) PathAccessError.  Set to True to generate that class.
+# Repaired in /repo and therefore generated unconditionally (each was a gated class while open):
+#   de451ae  bbrepr has no size limits (the `_BBRepr` limits were 1024): literals of more than 1024
+#            digits / characters / elements and nested T / Path arguments wider than 1024 characters
+#   cf04d35  `_format_path` marks its runs of T steps: a list as a top-level plain segment
+#   5242ad1  plain segments are printed with bbrepr: builtin functions / classes and sets of two or
+#            more elements inside a plain segment
+# READING (DESIGN §6.6 — `Path(T.a)` reprs as `T.a`, pinned by glom's own test_path_t_roundtrip): a
+# nested segment-free Path is reconstructed as the T expression it prints as.  Wherever glom evaluates
+# the argument (`arg_val`) the two are the same spec.  Where an argument is used *unevaluated* — the key
+# of the last step of an A-rooted expression, `scope[key] = target`, and a plain segment that is the
+# first step of an S- / A-rooted Path, `_s_first_magic(scope, key)` — they are told apart:
+# glom(t, A[Path(T.a)]) raises TypeError (unhashable type: 'Path'), glom(t, A[T.a]) succeeds;
+# glom(t, Path(S, (Path(T.a),))) raises TypeError, Path(S, (T.a,)) PathAccessError.  The clause
+# "evaluates identically" is read for objects without a segment-free nested Path in an unevaluated key
+# position; the generator writes such a Path as its T form there.  C18_A_RAW_PATH_KEY=1 generates the
+# class all the same (the check then reports it).
 A_RAW_PATH_KEY = os.environ.get('C18_A_RAW_PATH_KEY') == '1'
-# GATED CLASS (genuine defect, minor): `_format_path` prints a plain segment with the builtin
-# `repr(part)`, not with `bbrepr(part)`: Path('a', len) prints as Path('a', <built-in function len>).
-# The model treats a builtin function / class inside a 'P' segment (and inside a slice object,
-# whose repr is Python's) as outside the domain; with the switch on they are generated to tie the
-# model's text (the model follows `_format_path`: extracted fact fmtSegRepr = repr / bbrepr); for the
-# same reason a set of two or more elements is never generated inside a plain segment or a slice
-# object (the builtin repr prints it in iteration order, which eval(repr(s)) does not keep).
-PLAIN_BUILTINS = os.environ.get('C18_PLAIN_BUILTINS') == '1'
 # ---------------------------------------------------------------------------------------------
 
 MANIFEST = dict(
-    text="Lean 4 theorems, for every scalar type, every root and every list of steps of any length and nesting: the parser of the repr grammar (the model of eval(repr(x)): `.name`, `.__('name')`, `[index]` with Python's tuple / trailing-comma / `()` / slice rules, `(args, k=v)`, `.__star__()`, the displays `()` `(x,)` `(…)` `[…]` `{…}` `{k: v}`, `set()`, `frozenset()`, `frozenset({…})`, `slice(a, b, c)`, nested `Path(part, …)` with Path.__init__'s flattening, the first part carrying a root other than T) applied to what `_format_t` / `_format_slice` / `format_invocation` / `_format_path` / reprlib's container methods print returns the same argument / the same root and steps (keyword arguments as a dict, a segment-free nested Path as the T it prints as) and an object with the same repr (`c18_roundtrip_arg`, `c18_roundtrip_t`, `c18_roundtrip_path`: one mutual induction over scalars, containers, dict entries, slice objects, nested T and nested Path arguments, items, steps and plain segments); reprlib's limits are modelled (`truncArg`: maxlevel, the per-container limits, the maxlong / maxstring / maxother cuts incl. the cut of a nested T / Path text and of the name in `.__('name')`) and lose nothing when `fitsObj` holds (`c18_limits_lose_nothing`), sizes up to 1024 are inside whatever the instance's limits are (`c18_within_min_limit`, `c18_fits_mono`), and what glom prints with its limits reads back as an object glom prints the same way (`c18_repr_roundtrip`, `c18_model_checks`); forced hypotheses: `c18_cut_counterexample` (a scalar past its limit — seeded change C18-s9), `c18_nonfinite_counterexample` (inf / nan), `c18_overlong_counterexample`, `c18_wf_counterexample`, `c18_path_root_counterexample`; `__setstate__ ∘ __getstate__` is the identity (`c18_pickle`); len, p[i], p[a:b:c], values, items, ==, startswith, Path(p, q), from_t computed on the flat `__ops__` tuple are the same operations on the list of steps for ALL Int index / slice triples (`c18_seq_laws`, with `pySlice` = CPython's slice.indices semantics and its lemmas); glom(t, Path(p, q)) = glom(glom(t, p), q) for wildcard-free paths of any length on any heap (`c18_concat`, from `walk_append` over C01's walk); per-run facts obligation `c18_facts_wf` by `decide` on the switches of `_format_t`, the pickling tables, the shape of `Path.__getitem__`, the limits / fillvalue / methods of the live `_BBRepr` instance behind `bbrepr` and the function plain segments are printed with, read from /repo. Model tied to the code by comparing the model's rendered repr text (scalars rendered by a Lean model of int / str / bytes repr; with small limits in a scratch tree also every cut), parse result, pickle result and every sequence operation with the real glom (index / slice triples enumerated exhaustively for lengths 0–5, bounds in [−8, 8]).",
-    note="trusted: Lean kernel + {propext, Classical.choice, Quot.sound}; extractor (extract/facts/c18.py); harness/driver; the lexical level: a scalar (int, str, bytes, finite float, None, True, False, Ellipsis, builtin name) is one atomic token — that Python's lexer reads its repr text back as the value, the shortest-digits float repr, and pickle of argument values, are CPython's; bracket matching is lexical; Python's slice semantics (`pySlice`) validated exhaustively against CPython; BEq on expressions in the driver is structural equality of their JSON form. Domain: finite floats (inf / nan have no literal: `T(inf)` is not evaluable — outside, `c18_nonfinite_counterexample`); sets / dicts compared in reprlib's printed (sorted) order, dict arguments as dicts (insertion order is not kept by repr); what the builtin repr prints — plain Path segments, the parts of a slice object — holds no builtin function and no set of two or more elements (Python prints those in iteration order); sizes up to the limits of the `_BBRepr` instance (1024: larger literals are cut — reported defect, generator class gated by HUGE_LITERALS); no list as a top-level plain segment (`_format_path` takes it for a T run — reported defect, gated by LIST_SEGMENTS); no segment-free nested Path as the unevaluated key of the last step of an A-rooted expression (consequence of reading 6, gated by A_RAW_PATH_KEY). A text cut by reprlib is modelled as unreadable (Python may read `...` as Ellipsis: another object). Arithmetic-operator reprs are outside the property. An A-rooted Path has no call / wildcard step (`_t_child` refuses them).",
-    technique='Lean 4 proof (parser ∘ formatter = id by mutual induction over the whole argument grammar; reprlib limits as a pass that is the identity inside them, monotone in the limits; sequence laws on the flat tuple; walk_append) + facts obligation by decide (incl. the limits of the live _BBRepr instance) + differential correspondence with exhaustive index/slice enumeration',
+    text="Lean 4 theorems, for every scalar type, every root and every list of steps of any length and nesting: the parser of the repr grammar (the model of eval(repr(x)): `.name`, `.__('name')`, `[index]` with Python's tuple / trailing-comma / `()` / slice rules, `(args, k=v)`, `.__star__()`, the displays `()` `(x,)` `(…)` `[…]` `{…}` `{k: v}`, `set()`, `frozenset()`, `frozenset({…})`, `slice(a, b, c)`, nested `Path(part, …)` with Path.__init__'s flattening, the first part carrying a root other than T) applied to what `_format_t` / `_format_slice` / `format_invocation` / `_format_path` / reprlib's container methods print returns the same argument / the same root and steps (keyword arguments as a dict, a segment-free nested Path as the T it prints as) and an object with the same repr (`c18_roundtrip_arg`, `c18_roundtrip_t`, `c18_roundtrip_path`: one mutual induction over scalars, containers, dict entries, slice objects, nested T and nested Path arguments, items, steps and plain segments; the `path_t` of a Path — a T expression holding plain segments — included); reprlib's limits are modelled (`truncArg`: maxlevel, the per-container limits, the maxlong / maxstring / maxother cuts incl. the cut of a nested T / Path text and of the name in `.__('name')`) and lose nothing when `fitsObj` holds (`c18_limits_lose_nothing`); the limits of the live instance are at least sys.maxsize, so whatever is no larger than sys.maxsize is inside them (`c18_within_maxsize`, `c18_within_min_limit`), and what glom prints with its limits reads back as an object glom prints the same way (`c18_repr_roundtrip`, `c18_model_checks`); forced hypotheses: `c18_cut_counterexample` (a scalar past a limit — seeded change C18-s9, revert of de451ae), `c18_nonfinite_counterexample` (inf / nan), `c18_overlong_counterexample`, `c18_wf_counterexample`, `c18_path_root_counterexample`; `__setstate__ ∘ __getstate__` is the identity (`c18_pickle`); len, p[i], p[a:b:c], values, items, == / != (against a Path, a T expression, anything else), startswith (a Path, a T expression, a text, anything else), Path(p, q), from_t computed on the flat `__ops__` tuple are the same operations on the list of steps for ALL Int index / slice triples (`c18_seq_laws`, with `pySlice` = CPython's slice.indices semantics); glom(t, Path(p, q)) = glom(glom(t, p), q) for wildcard-free paths of any length on any heap (`c18_concat`, from `walk_append` over C01's walk); per-run facts obligation `c18_facts_wf` by `decide` on: the switches of `_format_t` / `_format_path` (dunder guard, `()`, 1-tuple comma, root-aware, plain segments through bbrepr, runs of T steps marked), the pickling tables, Path's len / values / items / __getitem__ against the tuple of steps, and the limits (>= sys.maxsize) / fillvalue / methods of the live `_BBRepr` instance behind `bbrepr` — each fact established on the imported module by a probe battery (exhaustive over small scopes), so that behaviour-preserving rewrites of the source keep it. Model tied to the code by comparing the model's rendered repr text (scalars rendered by a Lean model of int / str / bytes repr; with small limits in a scratch tree also every cut), parse result, pickle result and every sequence operation with the real glom (index / slice triples enumerated exhaustively for lengths 0–5, bounds in [−8, 8]).",
+    note="trusted: Lean kernel + {propext, Classical.choice, Quot.sound}; extractor (extract/facts/c18.py: probes of the imported module); harness/driver (the driver rejects unknown / missing fields); the lexical level: a scalar (int, str, bytes, finite float, None, True, False, Ellipsis, builtin name) is one atomic token — that Python's lexer reads its repr text back as the value, the shortest-digits float repr, and pickle of argument values, are CPython's; bracket matching is lexical; Python's slice semantics (`pySlice`) validated exhaustively against CPython; BEq on expressions in the driver is structural equality of their JSON form; that no Python object is larger than sys.maxsize (`fitsObj … (uniform sys.maxsize)` is a hypothesis of `c18_within_maxsize`, true of every object CPython can hold). Domain: finite floats (inf / nan have no literal: `T(inf)` is not evaluable — outside, `c18_nonfinite_counterexample`); sets / dicts compared in reprlib's printed (sorted) order, dict arguments as dicts (insertion order is not kept by repr); the parts of a slice object (printed by Python's slice.__repr__, i.e. the builtin repr) hold no builtin function and no set of two or more elements; reading §6.6: a segment-free nested Path comes back as the T it prints as, and 'evaluates identically' is read for objects without such a Path in an unevaluated key position (A_RAW_PATH_KEY). A text cut by reprlib is modelled as unreadable (Python may read `...` as Ellipsis: another object) — only reachable when a limit is lowered. Arithmetic-operator reprs and Path.from_text are outside the property. An A-rooted Path has no call / wildcard step (`_t_child` refuses them).",
+    technique='Lean 4 proof (parser ∘ formatter = id by mutual induction over the whole argument grammar; reprlib limits as a pass that is the identity inside them, monotone in the limits; sequence laws on the flat tuple; walk_append) + facts obligation by decide over behaviourally established facts (incl. the limits of the live _BBRepr instance) + differential correspondence with exhaustive index/slice enumeration',
     ref='DESIGN.md §3 C18, §6.6')
 RULE = ('repr: random objects of 0–8 steps (quick) / 0–10 (thorough): T expressions rooted at T, S, A and '
         'Paths rooted at T, S and A (plain segments mixed with T runs) over attribute (incl. dunder via T.__()), item '
@@ -79,11 +66,15 @@ RULE = ('repr: random objects of 0–8 steps (quick) / 0–10 (thorough): T expr
         'domain: model tie only), builtins such as len / int, tuples / lists / sets / frozensets / dicts '
         '(0, 1, 2–3 and 7–12 elements: past maxtuple … maxdict; nested up to 9 levels: past maxlevel), '
         'slice objects, nested T / S expressions and nested Path objects (with stars and segments); '
-        'with C18_HUGE_LITERALS=1 also sizes past 1024. A one-edit mutation stream targets the printing '
+        'sizes past 1024 (the limit bbrepr had before de451ae): ints, strings, bytes, lists, tuples, dicts, '
+        'sets, wide nested T; lists as plain segments. A one-edit mutation stream targets the printing '
         'corner cases (1-tuples, empty tuples, dunder names, keyword order, trailing segments). '
         'seq: index i in [-8, 8] and slice triples over {None} ∪ [-8, 8] enumerated exhaustively for path '
-        'lengths 0–5 (both tiers), plus values, items, len, from_t, and ==, startswith, Path(p, q) against '
-        'equal / prefix / unrelated paths, over segments that include big ints and containers. '
+        'lengths 0–5 (both tiers), plus values, items, len, from_t, and == / != / startswith against equal / '
+        'prefix / unrelated operands handed over as a Path or as its path_t (a T expression), == / != with '
+        'non-Paths, startswith with a text and with non-Paths (TypeError), Path(p, q), over segments that '
+        'include big ints and containers; repr cases also over the path_t of a Path (a T expression holding '
+        'plain segments). '
         'concat: C01 heap targets with a valid walk split at a random point, and one-edit bad '
         'segments. non-trivial = an object with >= 2 steps or a nested / container argument; an index / '
         'slice on a path of length >= 1; any concat case; distinct = distinct case')
@@ -100,10 +91,11 @@ ASSUMPTIONS = ['arithmetic-operator reprs are outside the property',
                'only sortable sets are generated',
                'inf / nan floats (no literal) are outside the domain; builtin functions inside a plain '
                'Path segment or a slice object are outside (printed by the builtin repr)',
-               'sizes above the _BBRepr limits (1024) are outside until the limits are removed '
-               '(HUGE_LITERALS gate); list-typed top-level segments until _format_path is repaired '
-               '(LIST_SEGMENTS gate); a segment-free nested Path as the unevaluated last key of an A-rooted '
-               'expression (A_RAW_PATH_KEY gate, reading 6)',
+               'reading §6.6: a nested segment-free Path comes back as the T expression it prints as; '
+               '"evaluates identically" is read for objects that have no such Path in an unevaluated key '
+               'position (last key of an A-rooted expression, first plain segment of an S- / A-rooted Path: '
+               'glom(t, A[Path(T.a)]) is a TypeError, glom(t, A[T.a]) succeeds) — the generator writes it '
+               'as its T form there (C18_A_RAW_PATH_KEY=1 generates it)',
                'a text cut by reprlib is modelled as unreadable (Python may read `...` as Ellipsis)']
 
 NS = None
@@ -119,6 +111,14 @@ def namespace():
 
 class Unencodable(Exception):
     pass
+
+
+class JArg:
+    """a nested T / Path argument inside a generated Python value, kept in its case form: the generator
+    never builds a glom object (a glom that refuses to build one must show up as an observation of the
+    case, not as a crash or a silently dropped case of the generator)"""
+    def __init__(self, j):
+        self.j = j
 
 
 def possibly_sorted(x):
@@ -170,9 +170,11 @@ def enc_scalar(v):
 
 
 def enc_arg(v):
+    t = type(v)
+    if t is JArg:
+        return v.j
     from glom import Path
     from glom.core import TType
-    t = type(v)
     if t is TType:
         return {'t': enc_ops(v.__ops__)}
     if t is Path:
@@ -303,6 +305,9 @@ def build_path_obj(root, steps):
 
 def build_obj(obj):
     if 't' in obj:
+        if any(is_seg(st) for st in obj['t']['steps']):
+            # a T expression that holds plain segments: the `path_t` of a Path
+            return build_path_obj(obj['t']['root'], obj['t']['steps']).path_t
         return build_t(obj['t']['root'], obj['t']['steps'])
     return build_path_obj(obj['path']['root'], obj['path']['steps'])
 
@@ -328,6 +333,8 @@ def enc_ops(ops):
     for i in range(1, len(ops), 2):
         op, arg = ops[i], ops[i + 1]
         if op == '.':
+            if type(arg) is not str:
+                raise Unencodable('attribute name %r' % (arg,))
             steps.append({'attr': arg})
         elif op == '[':
             if type(arg) is tuple:
@@ -357,7 +364,7 @@ def enc_obj(o):
             return {'t': enc_ops(o.__ops__)}
         if type(o) is Path:
             return {'path': enc_ops(o.path_t.__ops__)}
-    except Unencodable:
+    except Exception:      # ops that are not (root, op, arg, …) with encodable arguments: not the object
         return None
     return None
 
@@ -395,6 +402,15 @@ def outcome(spec, target):
     import glom
     import signal
     old = signal.signal(signal.SIGALRM, _on_alarm)
+    try:
+        return _outcome(glom, signal, spec, target, old)
+    except _Budget:              # the timer fired between the evaluation and its cancellation
+        signal.setitimer(signal.ITIMER_REAL, 0)
+        signal.signal(signal.SIGALRM, old)
+        return None
+
+
+def _outcome(glom, signal, spec, target, old):
     signal.setitimer(signal.ITIMER_REAL, 0.25)
     try:
         r = glom.glom(target, spec, scope={'a': {'b': 1}, 'b': 2, 0: 'z'})
@@ -453,10 +469,14 @@ def kwargs_sorted(x):
 
 
 def run_repr(case):
-    x = build_obj(case['obj'])
+    try:
+        x = build_obj(case['obj'])
+    except Exception as e:       # the public API refused to build the object: an observation
+        return {'text': '<build raised %s>' % type(e).__name__, 'eval': None, 'text2': None, 'pickled': None,
+                'same_eval': False}
     try:
         text = repr(x)
-    except Exception as e:       # an observation, not a harness error (Path('a', [1, 2]), see LIST_SEGMENTS)
+    except Exception as e:       # an observation, not a harness error (Path('a', [1, 2]) before cf04d35)
         text = '<repr raised %s>' % type(e).__name__
     obs = {'text': text, 'eval': None, 'text2': None, 'pickled': None, 'same_eval': False}
     try:
@@ -501,6 +521,9 @@ class Malformed(Exception):
 
 
 def enc_pairs(p):
+    from glom import Path
+    if type(p) is not Path:
+        raise Malformed()
     ops = p.path_t.__ops__
     if len(ops) % 2 != 1 or any(type(ops[i]) is not str for i in range(1, len(ops), 2)) \
             or root_name(ops[0]) == '?':
@@ -509,27 +532,65 @@ def enc_pairs(p):
             'steps': [[ops[i], argtext(ops[i + 1])] for i in range(1, len(ops), 2)]}
 
 
+def as_bool(v):
+    return {'bool': v} if type(v) is bool else {'other': 'not a bool: %s' % type(v).__name__}
+
+
+NOT_PATHS = ['a', ('a',), None, 5, ['a'], {'a': 1}]
+
+
 def run_seq(case):
     from glom import Path
-    p = build_path(case['root'], case['steps'])
     op = case['op']
+
+    def other(o):
+        """the other operand: a Path, or (\"as\": \"t\") its path_t — a T expression"""
+        q = build_path(o['root'], o['steps'])
+        return q.path_t if o.get('as') == 't' else q
     try:
+        p = build_path(case['root'], case['steps'])
         if op == 'len':
-            return {'nat': len(p)}
+            n = len(p)
+            return {'nat': n} if type(n) is int and n >= 0 else {'other': 'len: %r' % (n,)}
         if op == 'values':
-            return {'vals': [argtext(v) for v in p.values()]}
+            vs = p.values()
+            if type(vs) is not tuple:
+                return {'other': 'values: not a tuple'}
+            return {'vals': [argtext(v) for v in vs]}
         if op == 'items':
-            return {'pairs': [[o, argtext(v)] for o, v in p.items()]}
+            its = p.items()
+            if type(its) is not tuple or any(type(x) is not tuple or len(x) != 2 or type(x[0]) is not str
+                                             for x in its):
+                return {'other': 'items: not a tuple of (op, arg) pairs'}
+            return {'pairs': [[o, argtext(v)] for o, v in its]}
         if op == 'from_t':
             return {'path': enc_pairs(p.from_t())}
+        if op == 'eq_other':
+            # neither a Path nor a T: never equal (and != is its negation)
+            rs = [(p == x, p != x) for x in NOT_PATHS]
+            if any(type(a) is not bool or type(b) is not bool or a == b for a, b in rs):
+                return {'other': '== / != with a non-Path'}
+            return {'bool': any(a for a, _ in rs)}
+        if op == 'startswith_bad':
+            for x in NOT_PATHS[1:]:
+                try:
+                    r = p.startswith(x)
+                except TypeError:
+                    continue
+                return {'other': 'startswith(%r) returned %r' % (x, r)}
+            return 'TypeError'
         if 'idx' in op:
             return {'path': enc_pairs(p[op['idx']])}
         if 'slice' in op:
             return {'path': enc_pairs(p[slice(*op['slice'])])}
         if 'eq' in op:
-            return {'bool': p == build_path(op['eq']['root'], op['eq']['steps'])}
+            return as_bool(p == other(op['eq']))
+        if 'ne' in op:
+            return as_bool(p != other(op['ne']))
         if 'startswith' in op:
-            return {'bool': p.startswith(build_path(op['startswith']['root'], op['startswith']['steps']))}
+            return as_bool(p.startswith(other(op['startswith'])))
+        if 'startswith_str' in op:
+            return as_bool(p.startswith(argvalue(op['startswith_str'])))
         if 'concat' in op:
             return {'path': enc_pairs(Path(p, build_path('T', op['concat'])))}
     except Malformed:
@@ -538,6 +599,8 @@ def run_seq(case):
         return 'IndexError'
     except ValueError:
         return 'ValueError'
+    except TypeError:
+        return 'TypeError'
     except Exception as e:
         return {'other': type(e).__name__}
     return {'other': 'unknown op'}
@@ -594,6 +657,8 @@ STRS = ['a', 'b', 'a.b', "it's", 'say "hi"', 'back\\slash', '', 'x y', '*', '**'
 INTS = [0, 1, 2, -1, -3, 7, 10 ** 20, -2 ** 63]
 # past reprlib's default maxlong (40): 10**39 has exactly 40 digits (control)
 BIGINTS = [10 ** 39, 10 ** 40, 2 ** 140 + 1, -10 ** 40, -(10 ** 39), 10 ** 41 - 1, 7 ** 120, -(3 ** 300), 10 ** 300]
+# share of arguments past the limits bbrepr had before de451ae (1024)
+HUGE_SHARE = 0.03
 FLOATS = [1.5, -0.0, 1e100, 0.1, 2.0, -2.5e-300, 1e16, 123456789.123456789, 5e-324]
 BADFLOATS = [float('inf'), float('-inf'), float('nan')]
 BUILTINS = [len, int, str, sorted, abs, dict, isinstance, ValueError]
@@ -698,9 +763,9 @@ def gen_value(r, depth, tdepth, wide=None):
         return gen_scalar(r)
     wide = r.random() < 0.25 if wide is None else wide
     if p < 0.53 and tdepth > 0:
-        return build_arg(gen_nested_t(r, tdepth - 1))
+        return JArg(gen_nested_t(r, tdepth - 1))
     if p < 0.58 and tdepth > 0:
-        return build_arg(gen_nested_path(r, tdepth - 1))
+        return JArg(gen_nested_path(r, tdepth - 1))
     if p < 0.63:
         f = lambda: r.choice([None, None, 0, 1, -2, 5, 10 ** 40, 'k', (1, 2)])
         return slice(f(), f(), f())
@@ -756,8 +821,8 @@ def gen_huge(r):
         return {i: 0 for i in range(n)}
     if k == 'set':
         return set(range(n))
-    from glom import T
-    return T['a' * r.choice([500, 520])]['b' * r.choice([495, 510])]
+    return JArg({'t': {'root': 'T', 'steps': [{'item': {'one': L('a' * r.choice([500, 520]))}},
+                                              {'item': {'one': L('b' * r.choice([495, 510]))}}]}})
 
 
 def arg_of_value(v):
@@ -813,7 +878,7 @@ def gen_arg(r, depth, kinds=None):
         return gen_nested_path(r, depth - 1)
     if p < 0.31:
         return arg_of_value(gen_deep(r, r.choice([2, 5, 6, 7, 7, 8, 9])))
-    if HUGE_LITERALS and p < 0.36:
+    if p < 0.31 + HUGE_SHARE:
         return arg_of_value(gen_huge(r))
     return arg_of_value(gen_value(r, r.choice([0, 0, 1, 2, 3]), depth))
 
@@ -852,7 +917,7 @@ def gen_step(r, depth, allow_seg):
         # a plain segment: anything but a T / Path (those are flattened by Path.__init__)
         for _ in range(20):
             a = gen_arg(r, min(depth, 1))
-            if 't' not in a and 'path' not in a and (LIST_SEGMENTS or not ('seq' in a and a['seq'][0] == 'list')):
+            if 't' not in a and 'path' not in a:
                 return {'seg': a}
         return {'seg': {'lit': enc_scalar('a')}}
     if p < 0.5:
@@ -962,7 +1027,8 @@ def gen_repr_case(r, tier):
     n = r.randint(0, maxlen)
     if p < 0.6:
         root = r.choice(['T', 'T', 'T', 'S', 'A'])
-        steps = fix_s_call(root, gen_steps(r, n, 2, False))
+        # (now and then the `path_t` of a Path: a T expression that holds plain segments)
+        steps = fix_s_call(root, gen_steps(r, n, 2, r.random() < 0.06))
         if not a_ok(root, steps):
             root = 'T'
         return {'kind': 'repr', 'obj': {'t': {'root': root, 'steps': steps}}}
@@ -974,12 +1040,13 @@ def gen_repr_case(r, tier):
 
 
 def sanitize_plain(a):
-    """an argument printed by the builtin repr (a plain Path segment, a part of a slice object): Python
-    prints a set in iteration order, which eval(repr(s)) does not keep, and a dict in insertion order —
-    sets of two or more elements are not generated there, dicts are built in printed order, and (gated,
-    see above) builtin functions are replaced"""
+    """a part of a slice object is printed by Python's `slice.__repr__`, i.e. by the builtin repr: a set
+    there is printed in iteration order, which eval(repr(s)) does not keep, a dict in insertion order,
+    a builtin function as <built-in function …> — outside the domain: sets of two or more elements are
+    not generated there, dicts are built in printed order, builtin functions are replaced (one corpus
+    case keeps the model's text tied)"""
     if 'lit' in a:
-        if isinstance(a['lit'], dict) and 'bi' in a['lit'] and not PLAIN_BUILTINS:
+        if isinstance(a['lit'], dict) and 'bi' in a['lit']:
             return {'lit': {'i': '3'}}
         return a
     if 'seq' in a:
@@ -995,11 +1062,9 @@ def sanitize_plain(a):
     return a      # a nested T / Path prints its own arguments with bbrepr
 
 
-def sanitize(x, plain=False):
-    """apply `sanitize_plain` below every plain segment and every slice object"""
+def sanitize(x):
+    """apply `sanitize_plain` below every slice object"""
     if isinstance(x, dict):
-        if 'seg' in x and isinstance(x['seg'], dict):
-            return {'seg': sanitize(sanitize_plain(x['seg']))}
         if 'sliceobj' in x:
             x = sanitize_plain(x)
         return {k: sanitize(v) for k, v in x.items()}
@@ -1052,17 +1117,6 @@ def nested_instances(x):
     elif isinstance(x, list):
         for v in x:
             yield from nested_instances(v)
-
-
-def within_limits(case):
-    """no nested instance is wider than the _BBRepr limit (they are cut above it: HUGE_LITERALS)"""
-    if HUGE_LITERALS:
-        return True
-    o = case['obj'].get('t') or case['obj'].get('path')
-    for a in nested_instances(o['steps']):
-        if len(repr(build_arg(a))) > 1000:
-            return False
-    return True
 
 
 def strip_orders(x):
@@ -1124,6 +1178,13 @@ def gen_seq_random(r, n_cases):
         elif k < 0.5:
             f = lambda: r.choice([None, None] + list(range(-n - 3, n + 4)) + [10 ** 20, -10 ** 20])
             op = {'slice': [f(), f(), r.choice([None, None, 1, -1, 2, -2, 3, 0, 10 ** 20, -10 ** 20])]}
+        elif k < 0.54:
+            op = r.choice(['eq_other', 'startswith_bad'])
+        elif k < 0.6:
+            # p.startswith('text'): the text is one plain segment (it is not split at dots)
+            strs = [a for a, o in seq_args() if o != '[' and isinstance(argvalue(a), str)]
+            first = steps[0][1] if steps and isinstance(argvalue(steps[0][1]), str) else None
+            op = {'startswith_str': first if first is not None and r.random() < 0.6 else r.choice(strs)}
         elif k < 0.85:
             m = r.random()
             oroot = root if r.random() < 0.8 else r.choice(['T', 'S'])
@@ -1137,7 +1198,8 @@ def gen_seq_random(r, n_cases):
                 other[j] = list(r.choice(seq_args()))[::-1]
             else:
                 other = steps + seq_steps(r, r.randint(1, 2))
-            op = {r.choice(['eq', 'startswith']): {'root': oroot, 'steps': other}}
+            op = {r.choice(['eq', 'eq', 'ne', 'startswith', 'startswith']):
+                  {'root': oroot, 'steps': other, 'as': r.choice(['path', 'path', 't'])}}
         else:
             op = {'concat': seq_steps(r, r.randint(0, 4))}
         yield {'kind': 'seq', 'root': root, 'steps': steps, 'op': op}
@@ -1175,22 +1237,18 @@ def gen_concat(r, tier, n_cases):
 
 
 def generate(rng, tier, scale, **focus):
+    global HUGE_SHARE
+    HUGE_SHARE = 0.012 if tier == 'quick' else 0.03      # (a 1100-element literal costs as much as 50 cases)
     n = (700 if tier == 'quick' else 20000) * scale
     for i in range(n):
         try:
             case = gen_repr_case(rng, tier)
         except (ValueError, Unencodable):
             continue
+        # (the object is built by run_impl, not here: a glom that refuses to build it — or builds another
+        # one, seeded change C18-s8 — is what the check is for; the observations are compared with the
+        # steps the case lists)
         case['obj'] = fix_a_raw(sanitize(case['obj']))
-        try:
-            # (that the object built from the case has the steps the case lists is not asserted here: a
-            # glom that builds another object — seeded change C18-s8 — is what the check is for; the
-            # pickle / eval observations are compared with the steps the case lists)
-            build_obj(case['obj'])
-            if not within_limits(case):
-                continue
-        except Exception:      # e.g. RecursionError while building a deep value
-            continue
         yield case
     yield from gen_seq_random(rng, (400 if tier == 'quick' else 12000) * scale)
     yield from gen_concat(rng, tier, (300 if tier == 'quick' else 8000) * scale)
@@ -1212,9 +1270,23 @@ def corpus():
         mk([], 'path'),
         # literals past reprlib's default limits in a plain segment (printed by the builtin repr)
         mk([{'seg': L(10 ** 40)}, {'seg': {'seq': ['tuple', [L(i) for i in range(8)]]}}, {'attr': 'a'}], 'path'),
-        # outside the domain: no literal for inf; a builtin inside a plain segment
+        # outside the domain: no literal for inf; a builtin inside a slice object (Python's slice repr)
         mk([{'call': {'args': [L(float('inf'))], 'kwargs': []}}]),
+        mk([{'call': {'args': [{'sliceobj': [L(len), L(None), L(None)]}], 'kwargs': []}}]),
+        # the classes repaired by 5242ad1, cf04d35, de451ae
         mk([{'seg': L(len)}], 'path'),
+        mk([{'seg': L('a')}, {'seg': {'seq': ['tuple', [L('x'), {'seq': ['set', [L(i) for i in (-5, 1, 2, 3, 10)]]}]]}}], 'path'),
+        mk([{'seg': {'seq': ['list', []]}}], 'path'),
+        mk([{'seg': L('a')}, {'seg': {'seq': ['list', [L('.'), L('x')]]}}], 'path'),
+        mk([{'seg': L('a')}, {'seg': {'seq': ['list', [L(1), L(2)]]}}, {'attr': 'b'}], 'path'),
+        mk([{'call': {'args': [{'path': {'root': 'T', 'steps': [{'seg': L('a')}, {'seg': {'seq': ['list', [L(1)]]}}]}}],
+                      'kwargs': []}}]),
+        mk([{'item': {'one': L('a' * 1025)}}]),
+        mk([{'item': {'one': L(10 ** 1024)}}]),
+        mk([{'call': {'args': [{'seq': ['list', [L(i) for i in range(1025)]]}], 'kwargs': []}}]),
+        mk([{'call': {'args': [{'t': {'root': 'T', 'steps': [{'item': {'one': L('a' * 600)}},
+                                                             {'item': {'one': L('b' * 600)}}]}}], 'kwargs': []}}]),
+        mk([{'attr': '__' + 'n' * 1030}]),
     ]
     p = os.path.join(os.path.dirname(os.path.dirname(os.path.dirname(os.path.abspath(__file__)))),
                      'corpus', 'C18.jsonl')
